@@ -27,6 +27,14 @@ var progs = []Prog{
 	{Name: "empty-loop", Text: `fn main() { loop {} }`, Cores: 1, Endless: true},
 	{Name: "counting-loop", Text: `fn main() { let i = 0; while i < 2000 { i += 1; } println("done", i); }`, Cores: 1},
 	{Name: "printing-loop", Text: `fn main() { let i = 0; loop { i += 1; println("tick", i); } }`, Cores: 1, Endless: true},
+	// loops with nothing (or next to nothing) in them: every loop form polls by itself, not through its body
+	{Name: "empty-while-true", Text: `fn main() { while true {} }`, Cores: 1, Endless: true},
+	{Name: "empty-while-flag", Text: `fn main() { let go_on = true; while go_on {} }`, Cores: 1, Endless: true},
+	{Name: "while-true-null-body", Text: `fn main() { while true { null } }`, Cores: 1, Endless: true},
+	{Name: "empty-for-huge-range", Text: `fn main() { for i in 0..4000000000000000 {} }`, Cores: 1, Endless: true},
+	{Name: "for-huge-range-leaf-body", Text: `fn main() { for i in 0..4000000000000000 { null } }`, Cores: 1, Endless: true},
+	{Name: "empty-for-in-function", Text: `fn spin() { for i in 0..4000000000000000 {} }
+fn main() { println("go"); spin(); }`, Cores: 1, Endless: true},
 	{Name: "call-loop", Text: `fn f(x: int) -> int { x + 1 }
 fn main() { let i = 0; while i < 600 { i = f(i); } println("done", i); }`, Cores: 1},
 	{Name: "deep-calls", Text: `fn d(n: int) -> int { if n == 0 { 0 } else { 1 + d(n - 1) } }
